@@ -17,7 +17,7 @@ PENDING = "Simulation target per DESIGN.md, check not built yet in this round (w
 
 CHECKS = {
  "C01": dict(text="Seeded search: the current tree's accfg-trace-states and accfg-dedup are run on thousands of generated accfg programs; reference and deduplicated program are both executed on a simulated core with asynchronous accelerator register files under the same seeded environments (trip counts incl. 0, branch outcomes, register clobbers by effectful calls, device latencies) and their launch/await/call histories and register snapshots at launches are compared. Evidence of absence within the bounds, not proof.",
-              note="Trusts the IR interpreter and device model in /verif (assumptions A1-A3), xDSL 0.70 + irdl_options shim instead of the pinned xDSL commit; bounds: <=24 statements, nesting<=3, <=2 accelerators x <=6 fields, trip counts 0..4 and 9.",
+              note="Open known finding KF-C01-1 (setup fields are pulled in front of a loop that then does not iterate; enshrined in upstream's acc-dedup.mlir) is attributed by re-running the case with the hoisting restricted to loops that are known to iterate, and only for programs with a setup that writes only some fields in an environment where a loop really does not run. Trusts the IR interpreter and device model in /verif (assumptions A1-A3), xDSL 0.70 + irdl_options shim instead of the pinned xDSL commit; bounds: <=24 statements, nesting<=3, <=2 accelerators x <=6 fields, trip counts 0..4 and 9.",
               tech="deterministic simulation of the emitted accfg program (reference vs deduplicated) with seeded clobber/latency faults; history refinement oracle", ref="5 C01"),
  "C04": dict(text="Seeded search over (accelerator configuration, accfg program) pairs: the register map comes from generate_acc_op() of the current tree for seeded streamer configurations of every accelerator class; the program is lowered by convert-accfg-to-csr and executed on a CSR-level device model (registers by address, launch/busy/barrier conventions, RoCC decoder) next to the accfg-level reference under clobber, latency and CSR-garbage faults. Compared: per-field write history through the declared map, register snapshot by address at every launch (where a non-injective map shows), await behaviour, RoCC operand pairs, and that no accfg value survives.",
               note="Open known finding KF-C04-1 (the per-channel gemmx launch lowering writes tracked fields behind the state tracking) is attributed by a counterfactual run of the reference model. Trusts the CSR device model written from the docstrings in accelerators/snax.py (polling conventions, status registers at launch_streamer+1/+2, clearing write 0x3c5 for hwpe_mult); barrier styles 2 and 4 (unused by any accelerator class of the repo) are exercised through synthetic accelerators defined in /verif; gemmx mult_vals launches are not generated; PHS accelerator built with a duck-typed PE/template; values compared mod 2^32 / 2^64.",
@@ -44,7 +44,7 @@ CHECKS = {
               note="Open known finding KF-C05-1 (common-block search continues past dynamic strides; enshrined in upstream's copy_to_dma.mlir) is attributed by re-running the case with the search stopped at dynamic strides. Trusts the DMA model (A7, snax_rt.h) and the layout oracle written from ir/tsl/README.md; dynamic TSL steps follow A8; <= 512 elements, rank <= 4, tile depth <= 3; layouts are injective and source/destination disjoint by construction.",
               tech="deterministic simulation of the emitted DMA loop nest on a byte memory with footprint shadows; seeded placement and burst order (no schedule/fault dimension)", ref="5 C05"),
  "C06": dict(text="Seeded search as C01 with the subject accfg-config-overlap applied to traced / deduplicated programs, compared against its own input only on environments where that input was right and its state links truthful; also static SSA dominance and run-time undefined-value detection. One genuine defect is recorded as known finding KF-C06-1.",
-              note="As C01; large latencies make moved setups execute inside the accelerator's busy window (probe setup-while-busy); known finding KF-C06-1 masks launch-snapshot mismatches only in programs whose loop body has two setups of one accelerator followed by a later setup of it, with dedup before overlap.",
+              note="As C01; large latencies make moved setups execute inside the accelerator's busy window (probe setup-while-busy); known finding KF-C06-1 masks launch-snapshot mismatches only in programs whose loop body has two setups of one accelerator followed by a later setup of it, with dedup before overlap, or - without dedup - on a field that a setup in a loop writes and a setup that can execute after that loop leaves alone.",
               tech="deterministic simulation (reference vs overlapped program) with seeded clobber/latency faults; history refinement + dominance oracle", ref="5 C06"),
  "C07": dict(text="Seeded search: every !accfg.state value the traced program defines or consumes is checked, at run time on the simulated machine, against the repo's own infer_state_of claims (field -> SSA value must equal the concrete register now) and against the dynamically last writer of the accelerator (threading), under clobber faults at any nesting depth, all trip counts and branch outcomes.",
               note="As C01; the contract for which ops may clobber (A2) is re-implemented in /verif, independent of has_accfg_effects.",
